@@ -390,6 +390,8 @@ def check_call(R, mp, ctx, pairs, refs, label, inject=None, check_read=True):
     conn, micro = drv.connection_size, drv._micro800
     case = {"call": label, "conn": conn, "micro800": micro, "instance_ids": drv._cfg["use_instance_ids"],
             "scenario": ctx["sid"], "requests": [(t, _short(v)) for t, v in pairs[:10]], "n": len(pairs)}
+    if ctx.get("history"):
+        case["history_before_this_call"] = list(ctx["history"])[-6:]
     before = all_mem(tp)
     # ---- the Spec side: address and reference bits of every request, on the memory before the call
     for inst, img in before.items():
@@ -1051,6 +1053,129 @@ def run_scenario(R, mp, rng, sc, sid, micro, n_calls, thorough):
         close_ctx(ctx)
 
 
+def failed_call(R, mp, ctx, pairs, refs, where, k):
+    """a write() whose k-th send / receive of this call fails (transport error): it must raise CommError,
+    what it put on the wire is a prefix of the model's frames, and whatever it changed lies inside the
+    data its own requests address.  The driver is then re-opened, as the code requires."""
+    import socket
+    from pycomm3.exceptions import CommError
+    tp, ref, drv, box, sc, cache = ctx["tp"], ctx["ref"], ctx["drv"], ctx["box"], ctx["sc"], ctx["cache"]
+    fs = drv.fakesock
+    conn, micro = drv.connection_size, drv._micro800
+    before = all_mem(tp)
+    for inst, img in before.items():
+        ref.ask(f"mem {inst} {fw.t_bytes(img)}")
+    adr = [addressed(ref, sc, t, rv, cache) if rv is not None else None for (t, _), rv in zip(pairs, refs)]
+    parsed = drv._parse_requested_tags([t for t, _ in pairs], "w")
+    qtoks = [req_tokens(i, parsed[i], pairs[i][1]) for i in range(len(pairs))]
+    v0 = box[0] + 1
+    key = {"send": "send", "send_after": "send_after", "recv": "recv"}[where]
+    base = fs.n_recv if where == "recv" else fs.n_send
+    fs.faults = {key: {base + k: socket.timeout("injected")}}
+    s0 = len(fs.sent)
+    case = {"call": f"failing:{where}#{k}", "conn": conn, "micro800": micro, "scenario": ctx["sid"],
+            "requests": [(t, _short(v)) for t, v in pairs[:10]], "n": len(pairs)}
+    signal.alarm(60)
+    try:
+        try:
+            res, raised = drv.write(*pairs), None
+        except Timeout:
+            raise
+        except Exception as e:        # noqa: BLE001
+            res, raised = None, e
+    finally:
+        signal.alarm(0)
+        fs.faults = {}
+    frames = fs.sent[s0:]
+    after = all_mem(tp)
+    R.case(("wf", ctx["sid"], where, k, tuple(t for t, _ in pairs)), nontrivial=True)
+    R.corr_checked += 1
+    mw = parse_model_write(mp.ask("write", str(conn), "1" if micro else "0", "1" if drv._cfg["use_instance_ids"] else "0", str(v0), *qtoks))
+    fired = raised is not None
+    R.count("failed_call", f"{where}:{'raised ' + type(raised).__name__ if fired else 'fault not reached'}")
+    if mw[0] == "ok":
+        model_msgs = [m for p in mw[1] for m in p[3]]
+        real_msgs = [payload(f) for f in frames]
+        if real_msgs != model_msgs[:len(real_msgs)]:
+            R.disagree("write: frames before the transport failure", case, [m.hex()[:120] for m in model_msgs[:3]], [m.hex()[:120] for m in real_msgs[:3]])
+        if fired and not isinstance(raised, CommError):
+            R.disagree("write: exception on a transport failure", case, "CommError", repr(raised))
+    # whatever was applied before the failure lies inside the data this call addresses
+    union = {}
+    for a in adr:
+        if a is not None:
+            union[a[0]] = union.get(a[0], 0) | a[1]
+    for inst, img in before.items():
+        z0, z1 = int.from_bytes(img, "little"), int.from_bytes(after.get(inst, b""), "little")
+        if (z0 ^ z1) & ~union.get(inst, 0):
+            R.fail("a write call that failed in transit changed memory outside the data it addresses", {**case, "instance": inst},
+                   after[inst][:16].hex(), img[:16].hex(), "write:failed-call-changed-outside")
+    ctx.setdefault("history", []).append({"write": [(t, _short(v)) for t, v in pairs[:6]], "fault": f"{where} #{k} of the call",
+                                          "outcome": repr(raised) if fired else "returned"})
+    if fired or drv._sock is None:
+        signal.alarm(60)
+        try:
+            drv.open()
+        finally:
+            signal.alarm(0)
+        ctx["history"].append("open()")
+    return fired
+
+
+def history_scenario(R, mp, rng, sc, sid, thorough):
+    """failure-then-continue: a multi-request write with bit writes fails in transit, the driver is
+    re-opened, and later calls (bit writes to OTHER tags, plain writes, several packets) are held to the
+    full oracle; then a second driver alternates with the first on the same controller."""
+    from pycomm3 import LogixDriver
+    ctx = make_ctx(sc, sid, False)
+    try:
+        for rnd in range(3 if thorough else 2):
+            out = gen_call(rng, ctx, rng.choice([3, 5, 8]))
+            # always some bit writes in the call that fails (merged read-modify-write packets in flight)
+            ints = [g for g in visible_tags(sc) if g["kind"] == "a" and g["code"] in S.INTEGER and not g["dims"]
+                    and not any(t.split(".")[0] == sc.full_name(g) for t, _, _ in out)]
+            for g in rng.sample(ints, min(2, len(ints))):
+                for _ in range(rng.randint(1, 2)):
+                    b = rng.randrange(8 * S.CODE_SIZE[g["code"]])
+                    v = rng.random() < 0.5
+                    out.append((f"{sc.full_name(g)}.{b}", v, ("b", v)))
+            if len(out) < 2:
+                continue
+            pairs, refs = call3(out)
+            where = rng.choice(["send", "send", "recv", "send_after"])
+            k = rng.choice([0, 0, 1, 2])
+            failed_call(R, mp, ctx, pairs, refs, where, k)
+            for c in range(3):
+                nxt = gen_call(rng, ctx, rng.choice([2, 3, 5, 8]) if c else rng.choice([3, 5]))
+                if rng.random() < 0.3:
+                    nxt = nxt + bad_value_pairs(rng, ctx, 1)
+                if len(nxt) >= 1:
+                    p2, r2 = call3(nxt)
+                    check_call(R, mp, ctx, p2, r2, f"after-failure#{rnd}.{c}")
+        # two drivers on one controller, alternating
+        ctx["history"] = []
+        drv2 = T.open_driver(LogixDriver, "10.0.0.2", ctx["tp"])
+        box2 = [next(drv2._sequence)]
+        drv2._sequence = counting(drv2._sequence, box2)
+        ctx2 = dict(ctx, drv=drv2, box=box2, sid=sid + "/driver2")
+        for c in range(6 if thorough else 4):
+            cx = ctx if c % 2 == 0 else ctx2
+            nxt = gen_call(rng, cx, rng.choice([1, 2, 3, 6]))
+            if nxt:
+                p2, r2 = call3(nxt)
+                R.count("two_drivers", "driver1" if cx is ctx else "driver2")
+                check_call(R, mp, cx, p2, r2, f"alternating#{c}")
+                ctx.setdefault("history", []).append({"write by": "driver1" if cx is ctx else "driver2", "requests": [t for t, _ in p2[:4]]})
+                ctx2["history"] = ctx["history"]
+        try:
+            drv2.fakesock.notify_close = False      # closing one client must not drop the other's session
+            drv2.close()
+        except Exception:             # noqa: BLE001
+            pass
+    finally:
+        close_ctx(ctx)
+
+
 def sized_calls(R, mp, rng, large, micro, thorough):
     """values of sizes around the connection size: single / multi / fragmented paths"""
     conn = 4000 if large else 500
@@ -1149,6 +1274,8 @@ def run(R, escalate=False):
               "and aligned ranges, strings shorter / equal / longer than capacity, structures as dict and as bytes, nested members, "
               "too-short / unencodable / misaligned values, unknown tags, duplicates, injected controller errors), both connection sizes, "
               "instance-id and symbolic addressing, Micro800 (single requests), values of conn-k bytes (single, multi, fragmented); "
+              "(1b) histories: a multi-request write fails in transit (k-th send / receive / after the target processed the frame), "
+              "the driver is re-opened, later calls are held to the full oracle; two drivers alternating on one controller; "
               "(2) type_class.encode on every type class the uploads built + synthetic ones, valid and malformed values; "
               "(3) encode_value on parsed requests; (4) set_bit sequences. non-trivial = distinct case that is sent / encodes")
     mp = fw.ModelProc("C02")
@@ -1166,6 +1293,8 @@ def run(R, escalate=False):
             up = run_scenario(R, mp, rng, sc, f"seed{R.seed}#{k}", micro, 14 if thorough else 10, thorough)
             corr_enc(R, mp, rng, up, 400 if thorough else 150, 0.0)
             corr_enc(R, mp, rng, up, 300 if thorough else 100, 0.12)
+        for k in range(12 if thorough else 3):
+            history_scenario(R, mp, rng, S.gen_scenario(rng), f"seed{R.seed}#h{k}", thorough)
         for large in (True, False):
             sized_calls(R, mp, rng, large, False, thorough)
         sized_calls(R, mp, rng, False, True, thorough)
